@@ -118,7 +118,7 @@ class AccessOb(SmtOb):
 
 def static_job(prog: str, variant: str = "plain", seed: int = 0, xcheck: int = 0) -> JobOut:
     from pv.sem import bounds as B
-    progs = {p.name: p for p in C.corpus("thorough" if prog.startswith("gen") else "quick", seed)}
+    progs = {p.name: p for p in C.corpus("thorough" if prog.startswith(("gen", "g2_")) else "quick", seed)}
     P = progs[prog]
     try:
         G = generate(P, transform_dag=None if variant == "plain" else tagger(variant, seed))
